@@ -73,6 +73,22 @@ where
     G::EdgeWeight: EW,
 {
     f.insert("edges".into(), run(|| json!(fwd.iter().map(|&a| g.edges(a).map(|e| json!([id(inv, e.source()), id(inv, e.target()), e.weight().to_i64()])).collect::<Vec<_>>()).collect::<Vec<_>>())));
+    // edge identity: every edge listed at a node is one of the edge_references (same id), with the same endpoints and
+    // weight; [position in edge_references or -1, same endpoints (unordered) and weight]
+    f.insert("eids".into(), run(|| {
+        let refs: Vec<(G::EdgeId, i64, i64, i64)> = g.edge_references().map(|r| (r.id(), id(inv, r.source()), id(inv, r.target()), r.weight().to_i64())).collect();
+        json!(fwd.iter().map(|&a| {
+            let row: Vec<G::EdgeId> = g.edges(a).map(|e| e.id()).collect();
+            g.edges(a).enumerate().map(|(j, e)| {
+                let (s, t, w) = (id(inv, e.source()), id(inv, e.target()), e.weight().to_i64());
+                let dup = row[..j].iter().any(|x| *x == e.id());      // the same id twice in one row
+                match refs.iter().position(|r| r.0 == e.id()) {
+                    Some(k) => json!([k, ((refs[k].1, refs[k].2) == (s, t) || (refs[k].1, refs[k].2) == (t, s)) && refs[k].3 == w, dup]),
+                    None => json!([-1, false, dup]),
+                }
+            }).collect::<Vec<_>>()
+        }).collect::<Vec<_>>())
+    }));
 }
 pub fn v_edgesd<G: IntoEdgesDirected>(g: G, fwd: &[G::NodeId], inv: &Inv<G::NodeId>, f: &mut Fields)
 where
